@@ -48,7 +48,7 @@ const (
 )
 
 var allKeys = [][]byte{[]byte("a"), []byte("b"), {}, []byte("c"), []byte("aa"), []byte("d"), []byte("e")} // the empty key is legal
-var allVals = [][]byte{[]byte("v1"), []byte("v2"), []byte("w"), {}, core.NilValue} // incl. the untyped nil (negative-caching marker)
+var allVals = [][]byte{[]byte("v1"), []byte("v2"), []byte("w"), {}, core.NilValue, core.LongValue()} // incl. the untyped nil (negative-caching marker)
 var allIDs = [][]byte{[]byte("h1"), []byte("h2"), []byte("h3")}
 
 const hugeBytes = int64(1) << 40
@@ -80,7 +80,7 @@ func (comp) Gen(prop string, rng *rand.Rand, tier string) *core.History {
 	capacity := core.Pick(rng, []int{1, 2, 3, 5})
 	maxBytes := core.Pick(rng, []int64{1, 30, 100, hugeBytes})
 	nkeys := 3 + rng.Intn(4)
-	keys := allKeys[:nkeys]
+	keys := core.WithLongKeys(rng, allKeys[:nkeys], 12)
 	setConfig(h, kind, capacity, maxBytes, keys)
 	sizes := []int64{-1, 0, 1, 40, 40, 90, 150, maxBytes + 1}
 	if maxBytes == hugeBytes {
@@ -89,7 +89,7 @@ func (comp) Gen(prop string, rng *rand.Rand, tier string) *core.History {
 	if core.Chance(rng, 1, 12) {
 		sizes = append(sizes, 1<<31, 1<<32, 1<<32+5) // edge of the 32-bit range (sizes are ints, the byte counter an int64)
 	}
-	nops := 20 + rng.Intn(41)
+	nops := core.LongHistory(rng, 20+rng.Intn(41))
 	for i := 0; i < nops; i++ {
 		k := core.Pick(rng, keys)
 		r := rng.Intn(100)
